@@ -136,11 +136,12 @@ func mediaAcceptable(r Range, offer string) bool {
 	switch {
 	case r.Spec == "*/*":
 	case strings.HasSuffix(r.Spec, "/*"):
-		if !strings.HasPrefix(mime, r.Spec[:len(r.Spec)-1]) {
+		// (type, subtype, charset, coding and language tokens are case-insensitive)
+		if !strings.HasPrefix(strings.ToLower(mime), strings.ToLower(r.Spec[:len(r.Spec)-1])) {
 			return false
 		}
 	default:
-		if r.Spec != mime {
+		if !strings.EqualFold(r.Spec, mime) {
 			return false
 		}
 	}
@@ -162,7 +163,7 @@ func mediaAcceptable(r Range, offer string) bool {
 // tokenAcceptable: the range names the offer, or a more specific tag of it ("fr-CH" is served by the offer "fr");
 // a token that merely starts with the offer's letters ("fil" / "fi", "iso-8859-15" / "iso-8859-1") is another token
 func tokenAcceptable(r Range, offer string) bool {
-	return r.Spec == "*" || r.Spec == offer || strings.HasPrefix(r.Spec, offer+"-")
+	return r.Spec == "*" || strings.EqualFold(r.Spec, offer) || strings.HasPrefix(strings.ToLower(r.Spec), strings.ToLower(offer)+"-")
 }
 
 func specificity(spec string) int {
@@ -381,6 +382,14 @@ func genStep(t *rapid.T) Step {
 				r.Spec = "*"
 			} else {
 				r.Spec = rapid.SampledFrom(tokens).Draw(t, "tok")
+			}
+		}
+		if rapid.IntRange(0, 9).Draw(t, "othercase") == 0 {
+			// the same range in another spelling: TEXT/HTML, Text/*, UTF-8 / GZIP / EN-us
+			if rapid.Bool().Draw(t, "upper") {
+				r.Spec = strings.ToUpper(r.Spec)
+			} else {
+				r.Spec = strings.ToUpper(r.Spec[:1]) + r.Spec[1:]
 			}
 		}
 		if rapid.IntRange(0, 2).Draw(t, "hasq") != 0 {
